@@ -64,3 +64,16 @@ func cat(xs ...[]int64) []int64 {
 	}
 	return out
 }
+
+// timedHarnessPrefixes: harnesses that use real timers / goroutines when run
+// natively; their native validation runs are subject to scheduling jitter.
+var timedHarnessPrefixes = []string{"VH_C10_", "VH_C11_", "VH_C12_", "VH_C13_", "VH_C16_", "VH_C17_", "VH_C18_", "VH_C19_", "VH_C26_", "VH_C28_", "VH_C33_", "VH_C34_", "VH_CL_"}
+
+func isTimedHarness(msg string) bool {
+	for _, p := range timedHarnessPrefixes {
+		if len(msg) >= len(p) && msg[:len(p)] == p {
+			return true
+		}
+	}
+	return false
+}
